@@ -67,9 +67,10 @@ def e2e_walk(w, tier, rng, g1, g2):
     ex = sorted(e["cid"] for e in st["exit"]["x"])
     w.link_e2e("x", ex[0], ex[1], "o", a, "o2", b)
     p = 0
-    for sender, cid, size in (("o", a, 0), ("o2", b, 100), ("o", a, 900)):
+    # payloads of every look (see OnionWorld.payload): to the spec they are opaque, e2e data is handed to on_raw_data as is
+    for sender, cid, size, shape in (("o", a, 0, "raw"), ("o2", b, 100, "ipv8"), ("o", a, 900, "tunnel")):
         p += 1
-        w.send_e2e(sender, cid, p, size=size)
+        w.send_e2e(sender, cid, p, size=size, shape=shape)
         for _ in range(12):
             if not w.net.inflight:
                 break
@@ -86,6 +87,12 @@ def e2e_walk(w, tier, rng, g1, g2):
                         break
                     w.deliver(extra[0].seq)
             w.deliver(d.seq)
+    for shape in ("ipv8", "tunnel", "raw"):
+        for sender, cid in (("o", a), ("o2", b)):
+            p += 1
+            w.send_e2e(sender, cid, p, size=30, shape=shape)
+            while w.net.inflight:
+                w.deliver(w.net.inflight[0].seq)
     for entry in sorted(r["cid"] for r in w.project()["relay"]["x"] if r["rdv"]):
         w.rp_forge("x", entry)
         while w.net.inflight:
